@@ -154,26 +154,18 @@ func ProcessSearchTracesRequest(ctx *fasthttp.RequestCtx, myid int64) {
 			continue
 		}
 
+		// A trace with several root spans can have several start or end times; like a trace with
+		// several root services or operations it is left out, the other traces are still listed.
 		traceStartTime, err := convertTimeToUint64(startTime)
 		if err != nil {
-			log.Errorf("ProcessSearchTracesRequest: failed to convert startTime: %v", err)
-			ctx.SetStatusCode(fasthttp.StatusInternalServerError)
-			_, err := ctx.WriteString("Invalid startTime: " + err.Error())
-			if err != nil {
-				log.Errorf("ProcessSearchTracesRequest: Error writing to context: %v", err)
-			}
-			return
+			log.Errorf("ProcessSearchTracesRequest: failed to convert startTime for traceId=%v: %v", traceId, err)
+			continue
 		}
 
 		traceEndTime, err := convertTimeToUint64(endTime)
 		if err != nil {
-			ctx.SetStatusCode(fasthttp.StatusInternalServerError)
-			log.Errorf("ProcessSearchTracesRequest: failed to convert endTime: %v", err)
-			_, err := ctx.WriteString("Invalid endTime: " + err.Error())
-			if err != nil {
-				log.Errorf("ProcessSearchTracesRequest: Error writing to context: %v", err)
-			}
-			return
+			log.Errorf("ProcessSearchTracesRequest: failed to convert endTime for traceId=%v: %v", traceId, err)
+			continue
 		}
 
 		// Only process traces which start and end in this period [startEpoch, endEpoch]
